@@ -123,8 +123,13 @@ func (t *ReuseConnTransport) exchangeConnCtx(ctx context.Context, payload []byte
 	}
 	resChan := make(chan res, 1)
 
+	// The goroutine may outlive this call (ctx done first), and the caller
+	// releases payload as soon as this call returns. So the goroutine must
+	// not share payload with the caller. It gets a private copy.
+	payloadCopy := pool.CopyBuf(payload)
 	go func() {
-		resp, err := t.exchangeConn(payload, c)
+		defer pool.ReleaseBuf(payloadCopy)
+		resp, err := t.exchangeConn(payloadCopy, c)
 		resChan <- res{m: resp, err: err}
 		t.releaseConn(c, err)
 	}()
